@@ -758,8 +758,9 @@ class NestedSequenceConverter(t.Generic[T, U], Converter[T]):
         return self._into_data(val)
 
     def _into_data(self, val: t.Any) -> DataType:
-        if getattr(val, 'shape', None) == ():
+        if getattr(val, 'shape', None) == () and not isinstance(val, (str, bytes)):
             # 0-d array: a single value, not iterable
+            # (numpy.str_/numpy.bytes_ scalars also have shape (), but index like str/bytes)
             val = val[()]
         if data_is_iterable(val):
             return list(map(self._into_data, val))
